@@ -11,7 +11,8 @@
    A1  The world.  What the program can see of the file system is  abspath(input_file)  and what
        lies below it: a pyworld = the last component of that absolute path (pw_base) and what is
        there (pw_kind: nothing, a regular file with its bytes, or a directory with its tree
-       Model.Walk.node).  Only regular files and directories are represented: no symbolic links
+       Model.Walk.node), and where the output directory is relative to it (pw_out_in_input, see
+       A11).  Only regular files and directories are represented: no symbolic links
        (so the followlinks argument of os.walk has no effect here), no sockets / FIFOs / devices
        (the final else branch of document() is unreachable in this world), no permission errors,
        and the tree does not change while the program runs.
@@ -64,7 +65,33 @@
        opaque parameter docfn header_name module_name (bytes of file), as in Model.Walk; it either
        gives the page text or raises.  logging calls have no observable effect (dropped).
    A10 RSTWriter / Directive calls are steps of Model.Writer.wstep, as in Base/PySem.v (the py_w_ combinators);
-       w.write_to_file(p) writes w.to_text(); the value of a directive option is formatted by str(). *)
+       w.write_to_file(p) writes w.to_text(); the value of a directive option is formatted by str().
+   A11 Normalised absolute paths; where the output directory is.  os.path.abspath(p) of a path p of
+       the representation A4 is the normalised absolute path (npath) with the same anchor and the
+       same components, without the trailing slash: abspath(input_file) is absolute and normalised
+       already, os.walk builds root from it by join with directory entry names, which need no
+       normalisation (A4), so on the paths the walk produces abspath is the identity up to the
+       trailing slash; under the output anchor it denotes abspath(settings.output.directory)
+       followed by the components.  Two normalised absolute paths are equal as strs (==) iff they
+       have the same components from the root of the file system, and (no symbolic links, A1) iff
+       they denote the same position of the file tree.  Under one anchor that is equality of the
+       component lists.  Across the anchors it is decided by the field pw_out_in_input of the
+       world:  Some rel  when abspath(settings.output.directory) is abspath(input_file) followed
+       by the components rel (the output directory IS the directory at the relative path rel below
+       the input directory; rel = [] : the input directory itself),  None  when the output
+       directory is not the input directory or below it (or no output directory is configured).
+       So  APath AInput rel _  and  APath AOutput [] _  have the same abspath iff
+       pw_out_in_input = Some rel  (py_npath_eq).  The comparison is exact for the output
+       directory itself (no components), the only comparison the program makes; for a path
+       strictly below the output directory it is exact when pw_out_in_input is Some, and when it is
+       None such a path is taken to differ from every path below the input (not exact when the input
+       lies below the output directory).  x == None is False for a path x (py_eq_optional).
+       Remark on A1 (the tree does not change): with the output directory inside the input tree
+       the program itself creates directories and files there while os.walk is running.  os.walk
+       lists a directory before the loop body runs for it, the body writes only at or below the
+       output directory, and the walk never descends into the output directory (the test
+       translated with this assumption), so what is created is either never listed or listed only
+       as the name of the output directory, which is pruned like a directory of the tree would be. *)
 From Coq Require Import String List NArith ZArith Bool Arith.
 From CMinx Require Import Base.Str Base.PySem Model.Writer Model.Path Model.Naming Model.Pipeline
      Model.Walk.
@@ -156,7 +183,8 @@ Definition py_apath_endswith (p : apath) (suffix : str) : bool :=
 (* ------------------------------------------------------------------ *)
 (* the world                                                           *)
 
-Record pyworld := PyWorld { pw_base : str; pw_kind : input_kind }.
+(* pw_out_in_input: where the output directory is relative to the input (A11) *)
+Record pyworld := PyWorld { pw_base : str; pw_kind : input_kind; pw_out_in_input : option (list str) }.
 
 Definition dir_names (ch : list node) : list str :=
   flat_map (fun n => match n with D nm _ => [nm] | F _ _ => [] end) ch.
@@ -232,6 +260,27 @@ Definition py_os_path_basename (w : pyworld) (p : apath) : str :=
        | Some c => c
        | None => match ap_anchor p with AInput => pw_base w | AOutput => [] end
        end.
+
+(* normalised absolute paths (A11): the results of os.path.abspath on the path representation *)
+Record npath := NPath { np_anchor : anchor; np_comps : list str }.
+(* Python:   os.path.abspath(p)   for p a path of the representation (not the str input_file) *)
+Definition py_os_path_abspath_of (p : apath) : npath := NPath (ap_anchor p) (ap_comps p).
+(* the path  i  below the input and the path  o  below the output directory are the same position *)
+Definition py_same_position (w : pyworld) (i o : list str) : bool :=
+  match pw_out_in_input w with
+  | Some q => strs_eqb i (q ++ o)
+  | None => false
+  end.
+(* Python:   a == b   for two normalised absolute paths *)
+Definition py_npath_eq (w : pyworld) (a b : npath) : bool :=
+  match np_anchor a, np_anchor b with
+  | AInput, AInput | AOutput, AOutput => strs_eqb (np_comps a) (np_comps b)
+  | AInput, AOutput => py_same_position w (np_comps a) (np_comps b)
+  | AOutput, AInput => py_same_position w (np_comps b) (np_comps a)
+  end.
+(* Python:   a == b   where b is Optional: a value is never equal to None *)
+Definition py_eq_optional {A : Type} (eq : A -> A -> bool) (a : A) (b : option A) : bool :=
+  match b with Some b' => eq a b' | None => false end.
 
 (* Python:   os.scandir(p)   entries in listing order (A2); e.name  e.path  e.is_file() *)
 Record pydirentry := PyDirEntry { de_name : str; de_path : apath; de_is_file : bool }.
